@@ -42,3 +42,13 @@ func ckFreePorts(n int) ([]int, error) {
 	}
 	return out, nil
 }
+
+// ckMix derives an independent random seed from (seed, n) (splitmix64 finaliser);
+// consecutive seeds of math/rand give correlated first values.
+func ckMix(seed, n int64) int64 {
+	z := uint64(seed)*0x9e3779b97f4a7c15 + uint64(n)*0xbf58476d1ce4e5b9 + 0x94d049bb133111eb
+	z = (z ^ (z >> 30)) * 0xbf58476d1ce4e5b9
+	z = (z ^ (z >> 27)) * 0x94d049bb133111eb
+	z ^= z >> 31
+	return int64(z & 0x7fffffffffffffff)
+}
